@@ -253,7 +253,24 @@ def assign_to(self, tgt: ast.AST, v: Term, st: State, node=None):
         if star:
             items = self.iter_items(v, st)
             if items is None:
-                raise Unsupported("starred unpack of symbolic value at %d" % tgt.lineno)
+                # a, *rest, z = <iterable whose items are not known one by one>: a and z are its first / last items, rest a list of items of it
+                # (too few items is a ValueError: recorded as an unpack event with the minimum count)
+                k_ = star[0]
+                n_after = len(tgt.elts) - k_ - 1
+                self.emit("unpack", node or tgt, st, value=v, n=len(tgt.elts) - 1, known_len=None, at_least=True)
+                for i_, x_ in enumerate(tgt.elts):
+                    if i_ < k_:
+                        self.assign_to(x_, mk("sub", v, C(i_)), st, node)
+                    elif i_ == k_:
+                        r_ = self.new_obj(st, "list")
+                        ro_ = self.obj(st, r_)
+                        ro_.exact = False
+                        ro_.items = [(mk("elem", v, 0), st.ctx, "from")]
+                        ro_.base = v
+                        self.assign_to(x_.value, r_, st, node)
+                    else:
+                        self.assign_to(x_, mk("sub", v, C(i_ - len(tgt.elts))), st, node)
+                return
             i = star[0]
             after = len(tgt.elts) - i - 1
             for te, x in zip(tgt.elts[:i], items[:i]):
@@ -555,6 +572,9 @@ def _desugar_match(s):
                     raise Unsupported("or-pattern with captures / wildcard at line %d" % s.lineno)
                 tests.append(t_)
             return ast.BoolOp(op=ast.Or(), values=tests), []
+        if isinstance(pat, ast.MatchClass) and not pat.patterns and not pat.kwd_patterns:
+            # case Cls(): is isinstance(subject, Cls)
+            return ast.Call(func=ast.Name(id="isinstance", ctx=ast.Load()), args=[value, pat.cls], keywords=[]), []
         if isinstance(pat, ast.MatchAs):
             if pat.pattern is None:
                 return None, ([(pat.name, value)] if pat.name else [])
@@ -610,7 +630,9 @@ def st_with(self, s: ast.With, st: State) -> Optional[State]:
         mgrs.append(m)
         self.emit("with_enter", s, st, mgr=m, wid=uid)
         if item.optional_vars is not None:
-            self.assign_to(item.optional_vars, mk("entered", m, uid), st, s)
+            mo_ = self.obj(st, m)
+            # a write-only BytesIO enters as itself
+            self.assign_to(item.optional_vars, m if (mo_ is not None and getattr(mo_, "is_stream", False)) else mk("entered", m, uid), st, s)
     saved = st.ctx
     st.ctx = st.ctx + (("with", uid),)
     r = self.block(s.body, st)
@@ -922,8 +944,57 @@ def _desugar_count(self, s: ast.For, st: State):
     return [init, loop]
 
 
+def _desugar_iter_sentinel(self, s: ast.For, st: State):
+    """for T in iter(F, S): BODY   with F a function of the repository (a nested function, a helper, a partial)   is
+    while True: T = F(); if T == S: break; BODY      (None for other loops, in particular for iter(<stream>.readline, S), which the text rules read as it is)"""
+    it = s.iter
+    if not (isinstance(it, ast.Call) and isinstance(it.func, ast.Name) and it.func.id == "iter" and len(it.args) == 2 and not it.keywords and not s.orelse):
+        return None
+    try:
+        f = self.ev(it.args[0], st)
+    except Unsupported:
+        return None
+    if f.op not in ("closure", "func", "partial"):
+        return None
+    call = ast.Call(func=it.args[0], args=[], keywords=[])
+    get = ast.Assign(targets=[s.target], value=call)
+    tload = ast.parse(ast.unparse(s.target), mode="eval").body
+    test = ast.If(test=ast.Compare(left=tload, ops=[ast.Eq()], comparators=[it.args[1]]), body=[ast.Break()], orelse=[])
+    loop = ast.While(test=ast.Constant(value=True), body=[get, test] + list(s.body), orelse=[])
+    for n_ in ast.walk(loop):
+        if getattr(n_, "lineno", None) is None:
+            ast.copy_location(n_, s)
+    ast.copy_location(loop, s)
+    ast.fix_missing_locations(loop)
+    return [loop]
+
+
+def _fuse_new_generator(self, s: ast.For, st: State):
+    """for T in G(...): BODY with G a generator function that did not exist on the pinned tree: generator and consumer as one piece of code (bfsa/fuse.py)"""
+    it = s.iter
+    if not (isinstance(it, ast.Call) and isinstance(it.func, (ast.Name, ast.Attribute))):
+        return None
+    try:
+        f = self.ev(it.func, st)
+    except Unsupported:
+        return None
+    if f.op != "func":
+        return None
+    from .fuse import fuse_for
+    from .symexec import _is_new_function
+
+    fi = self.fi_of(f)
+    if fi is None or not fi.is_generator or fi.cls is not None or fi.parent is not None or not _is_new_function(fi) or fi.module is not self.frame.fi.module or fi in [fr.fi for fr in self.frames]:
+        return None
+    return fuse_for(s, fi.node)
+
+
 def st_for(self, s: ast.For, st: State) -> Optional[State]:
     dc = _desugar_count(self, s, st)
+    if dc is None:
+        dc = _desugar_iter_sentinel(self, s, st)
+    if dc is None:
+        dc = _fuse_new_generator(self, s, st)
     if dc is not None:
         return self.block(dc, st)
     itv = self.ev(s.iter, st)
@@ -1039,7 +1110,20 @@ def symbolic_loop(self, s, st: State, kind: str, itv: Optional[Term]) -> Optiona
         else:
             # may live in an enclosing (closure) frame
             pass
-    attr_targets = _attr_store_targets(s.body)
+    attr_targets = list(_attr_store_targets(s.body))
+    # a method called in the body on a local object may store into that object's attributes: those attributes are loop-carried as well
+    for n_ in ast.walk(ast.Module(body=list(s.body), type_ignores=[])):
+        if isinstance(n_, ast.Call) and isinstance(n_.func, ast.Attribute) and isinstance(n_.func.value, ast.Name):
+            bt_ = env.get(n_.func.value.id)
+            o_ = self.obj(st, bt_) if bt_ is not None else None
+            if o_ is not None and o_.kind == "obj" and o_.cls is not None and o_.origin is None:
+                m_ = o_.cls.lookup(n_.func.attr)
+                if m_ is not None and isinstance(m_[1], FuncInfo) and isinstance(m_[1].node, (ast.FunctionDef, ast.AsyncFunctionDef)) and m_[1].node.args.args:
+                    sname = m_[1].node.args.args[0].arg
+                    for t_ in ast.walk(m_[1].node):
+                        if isinstance(t_, ast.Attribute) and isinstance(t_.ctx, ast.Store) and isinstance(t_.value, ast.Name) and t_.value.id == sname:
+                            if (n_.func.value.id, t_.attr) not in attr_targets:
+                                attr_targets.append((n_.func.value.id, t_.attr))
     for (bn, an) in attr_targets:
         bt = env.get(bn)
         o = self.obj(st, bt) if bt is not None else None
